@@ -51,7 +51,7 @@ def model_checks(tier):
         dict(name='prune_wide_g', module='MC_Prune.tla', gen=True, workers=1, cfg=prune_cfg(1 if q else 2, 1, 2, [0, 1], 'FALSE', 'TRUE', invs=not q)),
         dict(name='dagx_sym', module='MC_CellDag.tla', workers=8, timeout=1500,
              cfg=dagx_cfg(3 if q else 4, [0, 1, 9] if q else [1], 2, 2, 'TRUE', 'FALSE', True)),
-        dict(name='prune_sym', module='MC_Prune.tla', workers=8 if q else 16, timeout=1500,
+        dict(name='prune_sym', module='MC_Prune.tla', workers=8 if q else 16, timeout=1500 if q else 5400,
              cfg=prune_cfg(2, 1 if q else 2, 2, [0, 1], 'TRUE', 'FALSE')),
         dict(name='prune_chain_sym', module='MC_Prune.tla', workers=4, timeout=1500,
              cfg=prune_cfg(2, 3, 1, [1], 'TRUE', 'FALSE')),
